@@ -112,7 +112,9 @@ def handle (evs : List Event) (r : Result) : String :=
     | some m => (showPairs (authorizerBurnRows m.items), dbTotals ids (authorizerBurnRows m.items))
   let (users, mint, dbmint) := match r.merged.find? (·.tag = Gen.TagAddBridgeMint) with
     | none => ("none", "none", "[]")
-    | some m => let (u, mi) := bridgeMintRows t m.items; (showPairs u, showPairs mi, dbTotals ids mi)
+    | some m =>
+      if bridgeMintFails m.items then ("[]", "err", "[]") else
+      let (u, mi) := bridgeMintRows t m.items; (showPairs u, showPairs mi, dbTotals ids mi)
   s!"bt={bt} burn={burn} users={users} mint={mint} dbburn={dbburn} dbmint={dbmint}"
 
 def step (st : St) (ws : List String) : St × String :=
